@@ -34,16 +34,18 @@ SIGS = {
     'a,b=2': (['a', 'b'], {'b': 2}, [], {}),
     '*,c=3,d=4': ([], {}, ['c', 'd'], {'c': 3, 'd': 4}),
     'a,*,verbose=False': (['a'], {}, ['verbose'], {'verbose': False}),
+    'a,b=2,c=5,*,d=3': (['a', 'b', 'c'], {'b': 2, 'c': 5}, ['d'], {'d': 3}),
 }
 
 
 def bounds(tier):
-    return {'signatures': sorted(SIGS), 'calls': 2, 'spellings': 'positional / keyword / default omitted, both keyword orders',
+    return {'signatures': sorted(s for s in SIGS if tier == 'thorough' or s != 'a,b=2,c=5,*,d=3'), 'calls': 2, 'spellings': 'positional / keyword / default omitted, both keyword orders',
             'decorator_forms': ['@cached', '@cached(...)'], 'values': 'symbolic ints/strings; concrete pool for real json'}
 
 
 def cases(tier):
-    out = [('sym', s, form) for s in SIGS for form in ('plain', 'call')]
+    sigs = [s for s in SIGS if tier == 'thorough' or s != 'a,b=2,c=5,*,d=3']
+    out = [('sym', s, form) for s in sigs for form in ('plain', 'call')]
     out += [('conc', i, 0) for i in range(4)]
     return out
 
